@@ -51,7 +51,11 @@ func VerifC17TextField() {
 		tf.OnSubmit = func(s string) (vxfw.Command, error) { submits++; submitted = s; return nil, nil }
 	}
 	pre := tf.Value
-	key := func(k vaxis.Key) { tf.HandleEvent(k, vxfw.TargetPhase) }
+	// key events arrive as presses, auto-repeats or pasted keys (all of which edit) or as
+	// releases (which never do)
+	evType := []vaxis.EventType{vaxis.EventPress, vaxis.EventRepeat, vaxis.EventPaste, vaxis.EventRelease}[zzverif.Choose("eventType", 4)]
+	key := func(k vaxis.Key) { k.EventType = evType; tf.HandleEvent(k, vxfw.TargetPhase) }
+	ideal0, cur0 := append([]verifG{}, ideal...), cur
 	insert := func(gs ...verifG) {
 		rest := append([]verifG{}, ideal[cur:]...)
 		ideal = append(append(ideal[:cur:cur], gs...), rest...)
@@ -105,6 +109,10 @@ func VerifC17TextField() {
 	case 11:
 		tf.Reset()
 		ideal, cur = nil, 0
+	}
+	if op <= 9 && evType == vaxis.EventRelease {
+		// a key release changes nothing
+		ideal, cur, wantSubmit = ideal0, cur0, false
 	}
 	if wantSubmit {
 		if haveSubmit {
